@@ -7,4 +7,5 @@ INVARIANT C20_EveryMemberDrawable
 INVARIANT C20_LenIterContains
 PROPERTY C20_AbsentRemoveHarmless
 PROPERTY C20_AddPresentNoop
+PROPERTY C20_FailedCallHarmless
 CHECK_DEADLOCK FALSE
